@@ -200,6 +200,200 @@ func gen(r *Rand, traceLog bool) History {
 	return h
 }
 
+// segSteps: the number of atomic model steps of the code segment that follows wake-up number k of a run
+// (start: ensure + one test-and-mark per validator; submission returned: its result, then housekeeping).
+func segSteps(r Run, k int) int {
+	switch k {
+	case 0:
+		return 1 + len(r.Duty.Vals)
+	case 4:
+		return 2
+	}
+	return 1
+}
+
+// interleavings: how many interleavings of the tied segments the check has to enumerate (product over
+// the tie instants of the multinomial coefficients), capped.
+func interleavings(h History) int {
+	at := map[uint64][]int{}
+	for _, r := range h.Runs {
+		for k, x := range WakeInstants(r) {
+			at[x] = append(at[x], segSteps(r, k))
+		}
+	}
+	total := 1
+	for _, segs := range at {
+		if len(segs) < 2 {
+			continue
+		}
+		n, m := 0, 1
+		for _, s := range segs {
+			for j := 1; j <= s; j++ {
+				n++
+				m = m * n / j // binomial(n, j) step by step: exact
+				if m > 1000000 {
+					return m
+				}
+			}
+		}
+		total *= m
+		if total > 1000000 {
+			return total
+		}
+	}
+	return total
+}
+
+func mostlyValid(r *Rand, spe uint64, d Duty, pool []uint64) Script {
+	s, _ := genScript(r, spe, d, pool)
+	if failing(spe, Run{Duty: d, Script: s}) && r.Chance(3, 4) {
+		s, _ = genScript(r, spe, d, pool)
+	}
+	return s
+}
+
+// genTied: calls of Attest that wake up at the same instant, so that the gate (attenv/yield.go)
+// interleaves them inside the code between two environment calls.  Run 0 leads; runs 1..m-1 start at one
+// of its wake-up instants, usually its start: two or three calls arriving together, mostly as the FIRST
+// calls of their epoch (nothing of that epoch is in the attested map yet), for the same duty (a
+// re-delivery racing the scheduled job) or for duties that share validators.  Further calls, before and
+// after, re-deliver the duties.  All other instants are distinct (instants of run i after its first
+// environment call are congruent to i modulo K).
+func genTied(r *Rand) YHistory {
+	for {
+		h := History{SPE: pick(r, []uint64{1, 2, 4, 8, 32, 32})}
+		base := uint64(r.Range(0, 40))
+		if r.Chance(1, 4) {
+			base = uint64(r.Intn(3))
+		}
+		npool := r.Range(1, 4)
+		pool := make([]uint64, npool)
+		for i := range pool {
+			pool[i] = uint64(r.Range(0, 30))
+			for j := 0; j < i; j++ {
+				if pool[j] == pool[i] {
+					pool[i] = 31 + uint64(i)
+				}
+			}
+		}
+		lat := func() uint64 { return uint64(K * r.Range(1, 12)) }
+		lead := Run{Duty: genDuty(r, h.SPE, base, pool)}
+		lead.Script = mostlyValid(r, h.SPE, lead.Duty, pool)
+		if failing(h.SPE, lead) {
+			lead.Script = mostlyValid(r, h.SPE, lead.Duty, pool)
+		}
+		lead.Timing = Timing{Start: uint64(K * r.Range(0, 30)), Fetch: lat(), Accounts: lat(), Sign: lat(), Submit: lat()}
+		h.Runs = append(h.Runs, lead)
+		wakes := WakeInstants(lead)
+		members := 2
+		if r.Chance(1, 4) {
+			members = 3
+		}
+		// mode 0: the calls start together; mode 1: the others start when the lead's submission returns
+		// (its housekeeping), mostly as the first call of the next epoch; mode 2: at another wake-up
+		mode := 0
+		switch c := r.Intn(20); {
+		case c >= 18:
+			mode = 2
+		case c >= 12:
+			mode = 1
+		}
+		if mode == 1 && base < 2 && r.Chance(3, 4) {
+			continue // the housekeeping does nothing before epoch 2
+		}
+		if mode == 1 && failing(h.SPE, lead) && r.Chance(3, 4) {
+			continue // ... and is reached only by a call that succeeds
+		}
+		for k := 1; k < members; k++ {
+			var run Run
+			switch c := r.Intn(20); {
+			case mode == 1 && c < 15:
+				run.Duty = genDuty(r, h.SPE, base+1, pool)
+			case c < 10:
+				run.Duty = lead.Duty
+			case c < 17:
+				run.Duty = genDuty(r, h.SPE, base, pool)
+			default:
+				run.Duty = genDuty(r, h.SPE, base+uint64(r.Intn(3)), pool)
+			}
+			run.Script = mostlyValid(r, h.SPE, run.Duty, pool)
+			stage := 0
+			switch mode {
+			case 1:
+				stage = 4
+			case 2:
+				stage = r.Range(1, 3)
+			}
+			run.Timing = Timing{Start: wakes[stage], Fetch: lat() + uint64(k), Accounts: lat(), Sign: lat(), Submit: lat()}
+			h.Runs = append(h.Runs, run)
+		}
+		for i, extra := members, r.Intn(4); i < members+extra; i++ {
+			var run Run
+			if r.Chance(3, 5) {
+				run.Duty = h.Runs[r.Intn(i)].Duty
+			} else {
+				run.Duty = genDuty(r, h.SPE, base+uint64(r.Intn(2)), pool)
+			}
+			run.Script = mostlyValid(r, h.SPE, run.Duty, pool)
+			start := r.Intn(60)
+			if r.Chance(1, 2) {
+				start += 200 // after everything else: a re-delivery that finds what the tied calls left behind
+			}
+			run.Timing = Timing{Start: uint64(K*start + i), Fetch: lat(), Accounts: lat(), Sign: lat(), Submit: lat()}
+			h.Runs = append(h.Runs, run)
+		}
+		if interleavings(h) > 300 {
+			continue
+		}
+		// turns: random, or ONE preemption: a call runs up to its j-th switch point, then another call runs
+		// for as long as it can (the schedule shape that exposes a window between two critical sections)
+		var turns []int
+		if r.Chance(2, 5) {
+			turns = make([]int, r.Range(0, 14))
+			for i := range turns {
+				turns[i] = r.Intn(members)
+			}
+		} else {
+			x := r.Intn(members)
+			y := (x + 1 + r.Intn(members-1)) % members
+			for j := r.Intn(5); j >= 0; j-- {
+				turns = append(turns, x)
+			}
+			for j := 0; j < 10; j++ {
+				turns = append(turns, y)
+			}
+		}
+		return YHistory{History: h, Gated: true, Turns: turns}
+	}
+}
+
+// genRacing: 4-8 calls for ONE epoch released together on real threads (attenv/racing.go), every
+// environment call succeeding at once, every validator with an account: whatever the interleaving, each
+// validator of the duties must be signed for exactly once and be in the attested set afterwards.
+func genRacing(r *Rand, trials int) YHistory {
+	h := History{SPE: pick(r, []uint64{1, 8, 32})}
+	base := uint64(r.Range(0, 40))
+	pool := make([]uint64, r.Range(1, 4))
+	for i := range pool {
+		pool[i] = uint64(10*i + r.Intn(10))
+	}
+	lead := genDuty(r, h.SPE, base, pool)
+	for i, n := 0, r.Range(4, 8); i < n; i++ {
+		d := lead
+		if r.Chance(1, 3) {
+			d = genDuty(r, h.SPE, base, pool)
+		}
+		src := base
+		if base > 0 {
+			src = base - 1
+		}
+		h.Runs = append(h.Runs, Run{Duty: d, Script: Script{
+			Data:     Data{Slot: d.Slot, Root: uint64(r.Range(1, 9)), Src: src, SrcRoot: 2, Tgt: base, TgtRoot: 3},
+			Accounts: sorted(pool)}})
+	}
+	return YHistory{History: h, Racing: trials}
+}
+
 // tags computes the input families of a history from the input alone.
 func tags(h History) (tags []string, nontrivial bool) {
 	set := map[string]bool{}
@@ -257,6 +451,43 @@ func tags(h History) (tags []string, nontrivial bool) {
 			nontrivial = true
 		}
 	}
+	for i := range h.Runs {
+		for j := i + 1; j < len(h.Runs); j++ {
+			wi, wj := WakeInstants(h.Runs[i]), WakeInstants(h.Runs[j])
+			for a := range wi {
+				for b := range wj {
+					if wi[a] != wj[b] {
+						continue
+					}
+					set["tied-calls"] = true
+					if a == 0 && b == 0 && Epoch(h, i) == Epoch(h, j) {
+						set["tied-starts-in-epoch"] = true
+						first := true
+						for k := range h.Runs {
+							if Epoch(h, k) == Epoch(h, i) && h.Runs[k].Timing.Start < wi[0] {
+								first = false
+							}
+						}
+						if first {
+							set["tied-first-calls-of-epoch"] = true
+						}
+					}
+				}
+			}
+		}
+	}
+	racing := len(h.Runs) > 0
+	for _, r := range h.Runs {
+		if r.Timing != (Timing{}) {
+			racing = false
+		}
+	}
+	if racing {
+		delete(set, "tied-calls")
+		delete(set, "tied-starts-in-epoch")
+		delete(set, "tied-first-calls-of-epoch")
+		set["racing-calls"] = true
+	}
 	if overlap {
 		set["overlapping"] = true
 	} else {
@@ -297,17 +528,58 @@ func TestC01(t *testing.T) {
 		"histories of 2-10 Attest calls on one service instance (sequential or overlapping in fake time) over duties of 1-4 neighbouring epochs with repeated, re-assigned and duplicated validators, every failure kind and attestation data with each field off by one; non-trivial = some validator is delivered twice for one epoch (the already-attested decision is reached) or some call receives invalid data (the validation decision is reached); distinct by full input text")
 	n := EnvInt("VERIF_N", 600)
 	thorough := os.Getenv("VERIF_TIER") == "thorough"
-	var hs []History
-	for _, h := range LoadInputs[History]("C01") {
+	var hs []YHistory
+	for _, h := range LoadInputs[YHistory]("C01") {
 		hs = append(hs, h)
 	}
 	ncorpus := len(hs)
 	rng := NewRand(Seed())
 	for i := 0; i < n; i++ {
-		hs = append(hs, gen(rng.Fork(), thorough && i%2 == 1))
+		hs = append(hs, YHistory{History: gen(rng.Fork(), thorough && i%2 == 1)})
 	}
-	for k, h := range hs {
-		obs := RunHistory(t, h)
+	// gated histories: calls that arrive together and are interleaved inside the code (a third on top)
+	tiedRng := NewRand(Seed() ^ 0x7469656463616c6c)
+	for i := 0; i < n/3; i++ {
+		hs = append(hs, genTied(tiedRng.Fork()))
+	}
+	// racing histories: a handful, many trials each
+	racingRng := NewRand(Seed() ^ 0x726163696e67)
+	for i := 0; n >= 100 && i < 4+n/150; i++ { // none on a replay (n = 0)
+		hs = append(hs, genRacing(racingRng.Fork(), 200))
+	}
+	for k, yh := range hs {
+		h := yh.History
+		var obs Observed
+		if yh.Racing > 0 {
+			var hit int
+			obs, hit = RunRacing(t, h, yh.Racing)
+			for i := range h.Runs {
+				h.Runs[i].Timing = Timing{}
+			}
+			col.Count("racing")
+			col.Stats.Dist["racing:trials"] += yh.Racing
+			if hit > 0 {
+				col.Count("racing:validator-signed-twice-in-some-trial")
+			}
+		} else if yh.Gated {
+			var ys YieldStats
+			obs, ys = RunHistoryYield(t, yh)
+			col.Count("gated")
+			if ys.Groups > 0 {
+				col.Count("gated:with-a-group-of-calls-present")
+			}
+			if ys.Switches > 0 {
+				col.Count("gated:turn-changed-inside-a-segment-or-at-its-end")
+			}
+			col.Stats.Dist["gated:switch-points-reached"] += ys.Points
+			col.Stats.Dist["gated:log-lines-inside-critical-section"] += ys.InLock
+			col.Stats.Dist["gated:switches"] += ys.Switches
+		} else {
+			if ties, _ := TieInstants(h); len(ties) > 0 {
+				t.Fatalf("history %d has tied wake-ups but is not gated", k)
+			}
+			obs = RunHistory(t, h)
+		}
 		tg, nt := tags(h)
 		if k < ncorpus {
 			tg = append(tg, "corpus")
@@ -338,9 +610,10 @@ func TestC01(t *testing.T) {
 			col.Count("log:trace")
 		}
 		h.Tags = tg
+		yh.History = h
 		id := col.NextID()
-		col.Add(Case{Term: Term(id, h, obs), Key: fmt.Sprintf("%v", h.Runs) + fmt.Sprint(h.SPE), Nontrivial: nt, Tags: tg,
-			Sample: map[string]any{"input": h, "observed": obs}})
+		col.Add(Case{Term: Term(id, h, obs), Key: fmt.Sprintf("%v", h.Runs) + fmt.Sprint(h.SPE, yh.Gated, yh.Turns), Nontrivial: nt, Tags: tg,
+			Sample: map[string]any{"input": yh, "observed": obs}})
 	}
 	if err := col.Flush(); err != nil {
 		t.Fatal(err)
